@@ -11,8 +11,14 @@
    shape); [chain_propagate sq ps w du_r du_c shape prop_shape os] = propagate_dft(w * P1 * ... * Pk, pixelscale=du,
    shape, prop_shape, oversample) without mask; [wfield]/[wintensity] = Wavefront.field / Wavefront.intensity;
    exp(+2 pi i W / lambda) = ke (-(W / lambda)); [kofb b] = 1 if b else 0; [maxsize] = sys.maxsize. *)
+From Coq Require Import Reals QArith Qreals Qcanon.
+From Coquelicot Require Import Complex.
+(* Model.Fft and Model.Tilt are imported first: the names they share with the propagate_dft model (wavefront, wfield,
+   wshape, qfix, ...) then refer to Model/Propagate.v and theirs are written qualified (Fft.wavefront, ...) *)
+From LV Require Import Lib.Cis Model.Tilt Model.Fft Proofs.FftP.
 From LV Require Import Model.Segment Proofs.FieldP Proofs.PlaneP Proofs.PropagateP Proofs.SegmentP Proofs.ChainP
                        Lib.Instances.
+Local Open Scope Z_scope.
 
 (* 1. "The PSF is the squared modulus of the Fourier transform of the pupil function" (C07 o C02).
    A fresh plane wave times a Pupil with amplitude A, OPD W, 2-d mask M and focal length z, propagated with
@@ -81,3 +87,263 @@ Theorem Chain_image_of_segmented_pupil :
       /\ get oi i j = norm2 (get o i j).
 Proof. exact image_of_segmented_pupil. Qed.
 Print Assumptions Chain_image_of_segmented_pupil.
+
+(* ... and "after any chain of planes and a propagation" (C07 o C02): a fresh plane wave through k >= 1 planes with
+   array masks of one shape n x m (each monolithic or segmented; [cover] = number of the plane's segment masks that
+   contain the sample, 0 or 1 for disjoint segments), whose product the code accepts (consistent pixel scales) and which
+   leaves pixel scale (dx_r, dx_c) and focal length z on the wavefront: the image is the transform of the PRODUCT of
+   the planes' pupil functions, sample by sample, and the intensity its squared modulus *)
+Theorem Chain_image_of_plane_chain :
+  forall (S : Scalar), is_ring S -> kernel_laws S -> forall (sq : Qc -> S)
+    (ps : list (plane S)) (w1 : pwf S) (lam : Qc) (pix : pixraw) (foc : option Qc) (z dur duc : Qc)
+    (shape pshape : option (Z * Z)) (os : Z) (dxr dxc : Qc) (n m Sr Sc Pr Pc : Z),
+  ps <> [] -> (forall P, In P ps -> plane_ok P n m) -> 0 < n -> 0 < m ->
+  chain_multiply ps (pwf_init lam pix foc []) = Ok w1 ->
+  pw_pix w1 = Some (dxr, dxc) -> pw_focal w1 = FVal z ->
+  match shape with None => (n, m) | Some s => s end = (Sr, Sc) ->
+  match pshape with None => (Sr, Sc) | Some p => p end = (Pr, Pc) ->
+  0 < Sr -> 0 < Sc -> 0 < Pr -> 0 < Pc -> 1 <= os -> Sr * os < maxsize -> Sc * os < maxsize ->
+  let ar := ((dxr * dur) / (lam * z * zq os))%Qc in
+  let ac := ((dxc * duc) / (lam * z * zq os))%Qc in
+  exists v o oi, chain_propagate sq ps (pwf_init lam pix foc []) dur duc shape pshape os = Ok v /\
+    wfield v = Ok o /\ wintensity v = Ok oi /\
+    nr o = Sr * os /\ nc o = Sc * os /\ nr oi = Sr * os /\ nc oi = Sc * os /\
+    forall i j, 0 <= i < Sr * os -> 0 <= j < Sc * os ->
+      let u := i - (Sr * os) / 2 in let v := j - (Sc * os) / 2 in
+      get o i j =
+        (if inE (array_extent (Pr * os) (Pc * os) 0 0) u v
+         then (sumZ n (fun x => sumZ m (fun y =>
+                 (fold_right (fun P acc =>
+                    (amp_at (pl_amp P) x y * ke (- (opd_at (pl_opd P) x y / lam))%Qc * cover (masks_of (pl_mask P)) x y
+                     * acc)%K) k1 ps
+                  * ke (ar * zq (x - n / 2) * zq u + ac * zq (y - m / 2) * zq v)%Qc)%K))
+               * sq (qabs (ar * ac)%Qc))%K
+         else k0)
+      /\ get oi i j = norm2 (get o i j).
+Proof. exact image_of_chain. Qed.
+Print Assumptions Chain_image_of_plane_chain.
+
+(* 2. FFT path = DFT path on a whole wavefront (C09 o C02).  [wF] is the wavefront as propagate_fft reads it (FFT model,
+   Model/Fft.v), [wD] the same wavefront (same fields, shape, pixel scale, focal length, plane type) as propagate_dft
+   reads it (Model/Propagate.v), carrying the wavelength propagate_fft REPORTS for its result.  Side conditions:
+   isotropic pixel scales d (pupil plane) and u (image plane), hence a square grid N x N = _fft_shape(...); every field
+   an array lying on the grid (pupil no larger than the grid: [fits]); requested shape * oversample <= N; no field
+   carries tilt (propagate_fft refuses tilt; [no_shift] is Field.shift of such fields); prop_shape defaulted and no
+   mask (the FFT path has neither); scratch buffer absent or at least N x N ([scratch_ok]); the kernel is 1-periodic.
+   Then both calls succeed, report the same wavelength and shape, and Wavefront.field agrees sample by sample - both
+   are the unitary defining sum at alpha = 1/N. *)
+Theorem Chain_fft_equals_dft :
+  forall (S : Scalar), is_ring S -> kernel_laws S -> (forall k : Z, @ke S (zq k) = k1) -> forall (sq : Qc -> S)
+    (wF : Fft.wavefront S) (N : Z) (d u z : Qc) (os s0 s1 : Z) (scratch : option (arr S)),
+  0 < N -> 0 < os -> d <> 0%Qc -> u <> 0%Qc -> z <> 0%Qc ->
+  Fft.wpix wF = (d, d) -> Fft.wz wF = z ->
+  fft_grid (d, d) (u, u) z (Fft.wlam wF) os = (N, N) ->
+  Fft.has_tilt wF = false -> Fft.wpt wF <> PNone ->
+  (forall f, In f (Fft.wdata wF) ->
+     match fd f with
+     | D2 a => (0 < nr a /\ 0 < nc a) /\
+               0 <= N / 2 - nr a / 2 + offr f /\ N / 2 - nr a / 2 + offr f + nr a <= N /\
+               0 <= N / 2 - nc a / 2 + offc f /\ N / 2 - nc a / 2 + offc f + nc a <= N
+     | D0 _ => False
+     end) ->
+  0 < s0 -> 0 < s1 -> s0 * os <= N -> s1 * os <= N ->
+  match scratch with
+  | Some buf => N <= nr buf /\ N <= nc buf
+  | None => 0 < fst (Fft.wshape wF) /\ 0 < snd (Fft.wshape wF) /\
+            forall f r c, In f (Fft.wdata wF) ->
+              inr (fst (Fft.wshape wF)) (r + fst (Fft.wshape wF) / 2) && inr (snd (Fft.wshape wF)) (c + snd (Fft.wshape wF) / 2) = false ->
+              embed f r c = k0
+  end ->
+  let lamF := prop_wavelength N N (d, d) (u, u) z os in
+  let wD := mkWf lamF (Some (d, d)) (Some z) (Fft.wshape wF)
+                 (match Fft.wpt wF with PNone => PtNone | PPupil => PtPupil | PImage => PtImage end) (Fft.wdata wF) in
+  exists outF sc oF outD oD,
+    propagate_fft sq wF (u, u) (Some (s0, s1)) os scratch = Ok (outF, sc) /\
+    Fft.wfield outF = Ok oF /\ Fft.wlam outF = lamF /\ Fft.wshape outF = (s0 * os, s1 * os) /\
+    propagate_dft sq (@no_shift S) wD u u (Some (s0, s1)) None os None = Ok outD /\
+    wfield outD = Ok oD /\ wwl outD = lamF /\ wshape outD = (s0 * os, s1 * os) /\
+    nr oF = s0 * os /\ nc oF = s1 * os /\ nr oD = s0 * os /\ nc oD = s1 * os /\
+    forall i j, 0 <= i < s0 * os -> 0 <= j < s1 * os ->
+      get oF i j = get oD i j /\
+      get oF i j =
+        (fold_right (fun f acc =>
+           (match fd f with
+            | D2 a => sumZ (nr a) (fun x => sumZ (nc a) (fun y =>
+                (get a x y * ke (/ zq N * zq (x - nr a / 2 + offr f) * zq (i - (s0 * os) / 2)
+                                 + / zq N * zq (y - nc a / 2 + offc f) * zq (j - (s1 * os) / 2))%Qc)%K))
+            | D0 _ => k0
+            end + acc)%K) k0 (Fft.wdata wF)
+         * sq (/ zq (N * N))%Qc)%K.
+Proof. exact fft_equals_dft_explicit. Qed.
+Print Assumptions Chain_fft_equals_dft.
+
+(* 3. Parseval through the whole chain (C05 o C02 o C07), over the complex numbers.  Commensurate sampling: the DFT
+   sampling ratio dx du/(lambda z os) is 1/(shape*os) per axis, the pupil array is no larger than that period, and the
+   whole period is evaluated (prop_shape defaulted to shape, no mask).  Then the total of Wavefront.intensity equals
+   sum |A M exp(2 pi i W/lambda)|^2 - which is the power of the amplitude inside the mask, whatever the OPD.
+   [sq] is any square root on the non-negative rationals. *)
+Theorem Chain_energy :
+  forall (sq : Qc -> C), (forall q : Qc, (0 <= q)%Qc -> Cmult (sq q) (sq q) = RtoC (Q2R q)) ->
+  forall (P : plane CS) (g : garr bool) (lam : Qc) (pix : pixraw) (foc : option Qc) (z dur duc : Qc)
+         (shape : option (Z * Z)) (os : Z) (dxr dxc : Qc) (n m Sr Sc : Z),
+  plane_ok P n m -> pl_mask P = PM2 g -> 0 < n -> 0 < m ->
+  mul_pixelscale (pl_pix P) (pix_broadcast pix) = Ok (Some (dxr, dxc)) ->
+  pl_focal P = Some (FVal z) ->
+  match shape with None => (n, m) | Some s => s end = (Sr, Sc) ->
+  0 < Sr -> 0 < Sc -> 1 <= os -> Sr * os < maxsize -> Sc * os < maxsize ->
+  ((dxr * dur) / (lam * z * zq os))%Qc = (/ zq (Sr * os))%Qc ->
+  ((dxc * duc) / (lam * z * zq os))%Qc = (/ zq (Sc * os))%Qc ->
+  n <= Sr * os -> m <= Sc * os ->
+  exists v oi, chain_propagate (S := CS) sq [P] (pwf_init lam pix foc []) dur duc shape None os = Ok v /\
+    wintensity v = Ok oi /\ nr oi = Sr * os /\ nc oi = Sc * os /\
+    @sumZ CS (Sr * os) (fun i => @sumZ CS (Sc * os) (fun j => get oi i j))
+    = @sumZ CS n (fun x => @sumZ CS m (fun y => @norm2 CS
+        (amp_at (pl_amp P) x y * kofb (pget g x y) * ke (- (opd_at (pl_opd P) x y / lam))%Qc)%K)) /\
+    @sumZ CS (Sr * os) (fun i => @sumZ CS (Sc * os) (fun j => get oi i j))
+    = @sumZ CS n (fun x => @sumZ CS m (fun y => (@norm2 CS (amp_at (pl_amp P) x y) * kofb (pget g x y))%K)).
+Proof. exact chain_energy. Qed.
+Print Assumptions Chain_energy.
+
+(* 4. Tilt as metadata = tilt in the OPD, through the whole chain (C04 o C07 o C02).
+   A: Wavefront * Pupil * Tilt(x=a, y=b)  ([CTilt (TiltAng b a) Pd]: lentil stores Tilt(x, y) as (self.x, self.y) = (y, x);
+      [Pd] is the default plane TiltInterface.multiply multiplies by), propagated with Field.shift for angular tilt
+      ([ang_shift]): the tilt moves the evaluation window by fix(shift) and the sampling coordinates by the full shift
+      (sr, sc) = (z a os/du_r, - z b os/du_c).
+   B: Wavefront * Pupil', Pupil' = the same pupil with the ramp a X dx_r - b Y dx_c added to its OPD
+      ((X, Y) = sample coordinates relative to floor(n/2), floor(m/2)), no metadata, ordinary propagation.
+   Both rendered fields are the same function X of the sample, each inside its own window; they are therefore equal on
+   every sample both evaluate. *)
+Theorem Chain_tilt_plane_equals_opd_ramp :
+  forall (S : Scalar), is_ring S -> kernel_laws S -> forall (sq : Qc -> S)
+    (P Pd : plane S) (g : garr bool) (a b lam : Qc) (pix : pixraw) (foc : option Qc) (z dur duc : Qc)
+    (shape pshape : option (Z * Z)) (os : Z) (dxr dxc : Qc) (n m Sr Sc Pr Pc : Z),
+  plane_ok P n m -> pl_mask P = PM2 g -> pl_tilt P = [] -> 0 < n -> 0 < m ->
+  mul_pixelscale (pl_pix P) (pix_broadcast pix) = Ok (Some (dxr, dxc)) -> pl_focal P = Some (FVal z) ->
+  plane_scalar Pd k1 0%Qc true -> pl_tilt Pd = [] -> pl_pix Pd = None -> pl_focal Pd = None ->
+  dur <> 0%Qc -> duc <> 0%Qc -> lam <> 0%Qc -> z <> 0%Qc ->
+  match shape with None => (n, m) | Some s => s end = (Sr, Sc) ->
+  match pshape with None => (Sr, Sc) | Some p => p end = (Pr, Pc) ->
+  0 < Sr -> 0 < Sc -> 0 < Pr -> 0 < Pc -> 1 <= os -> Sr * os < maxsize -> Sc * os < maxsize ->
+  let w0 := pwf_init (S := S) lam pix foc [] in
+  let Pramp := set_opd P (OpdA (mkP n m (fun x y =>
+                 (opd_at (pl_opd P) x y + (a * (zq (x - n / 2) * dxr) - b * (zq (y - m / 2) * dxc)))%Qc))) in
+  let sr := (z * a * zq os / dur)%Qc in let sc := (- (z * b * zq os / duc))%Qc in
+  let ar := ((dxr * dur) / (lam * z * zq os))%Qc in
+  let ac := ((dxc * duc) / (lam * z * zq os))%Qc in
+  exists vA oA vB oB,
+    rbind (plane_multiply P w0) (fun w1 => rbind (elem_multiply (CTilt (TiltAng b a) Pd) w1) (fun w2 =>
+      rbind (to_wavefront w2 PtPupil) (fun w3 =>
+        propagate_dft sq (ang_shift (wfocal w3) dur duc os) w3 dur duc shape pshape os None))) = Ok vA /\
+    wfield vA = Ok oA /\
+    chain_propagate sq [Pramp] w0 dur duc shape pshape os = Ok vB /\ wfield vB = Ok oB /\
+    nr oA = Sr * os /\ nc oA = Sc * os /\ nr oB = Sr * os /\ nc oB = Sc * os /\
+    forall i j, 0 <= i < Sr * os -> 0 <= j < Sc * os ->
+      let u := i - (Sr * os) / 2 in let v := j - (Sc * os) / 2 in
+      let X := (sumZ n (fun x => sumZ m (fun y =>
+                  (amp_at (pl_amp P) x y * kofb (pget g x y) * ke (- (opd_at (pl_opd P) x y / lam))%Qc
+                   * ke (ar * zq (x - n / 2) * (zq u - sr) + ac * zq (y - m / 2) * (zq v - sc))%Qc)%K))
+                * sq (qabs (ar * ac)%Qc))%K in
+      get oA i j = (if inE (array_extent (Pr * os) (Pc * os) (qfix sr) (qfix sc)) u v then X else k0) /\
+      get oB i j = (if inE (array_extent (Pr * os) (Pc * os) 0 0) u v then X else k0) /\
+      (inE (array_extent (Pr * os) (Pc * os) (qfix sr) (qfix sc)) u v = true ->
+       inE (array_extent (Pr * os) (Pc * os) 0 0) u v = true -> get oA i j = get oB i j).
+Proof. exact tilt_plane_equals_opd_ramp. Qed.
+Print Assumptions Chain_tilt_plane_equals_opd_ramp.
+
+(* ... and the same for the tilt handed to the constructor, Wavefront(wavelength, tilt=[a, b]) (wrapped by wavefront.py
+   as the one Tilt(x=a, y=b) of the plane-wave field), propagated by the tilt-aware call of C03 *)
+Theorem Chain_wavefront_tilt_equals_opd_ramp :
+  forall (S : Scalar), is_ring S -> kernel_laws S -> forall (sq : Qc -> S)
+    (P : plane S) (g : garr bool) (a b lam : Qc) (pix : pixraw) (foc : option Qc) (z dur duc : Qc)
+    (shape pshape : option (Z * Z)) (os : Z) (dxr dxc : Qc) (n m Sr Sc Pr Pc : Z),
+  plane_ok P n m -> pl_mask P = PM2 g -> pl_tilt P = [] -> 0 < n -> 0 < m ->
+  mul_pixelscale (pl_pix P) (pix_broadcast pix) = Ok (Some (dxr, dxc)) -> pl_focal P = Some (FVal z) ->
+  dur <> 0%Qc -> duc <> 0%Qc -> lam <> 0%Qc -> z <> 0%Qc ->
+  match shape with None => (n, m) | Some s => s end = (Sr, Sc) ->
+  match pshape with None => (Sr, Sc) | Some p => p end = (Pr, Pc) ->
+  0 < Sr -> 0 < Sc -> 0 < Pr -> 0 < Pc -> 1 <= os -> Sr * os < maxsize -> Sc * os < maxsize ->
+  let Pramp := set_opd P (OpdA (mkP n m (fun x y =>
+                 (opd_at (pl_opd P) x y + (a * (zq (x - n / 2) * dxr) - b * (zq (y - m / 2) * dxc)))%Qc))) in
+  let sr := (z * a * zq os / dur)%Qc in let sc := (- (z * b * zq os / duc))%Qc in
+  let ar := ((dxr * dur) / (lam * z * zq os))%Qc in
+  let ac := ((dxc * duc) / (lam * z * zq os))%Qc in
+  exists vA oA vB oB,
+    wavefront_tilt (Some [a; b]) = Ok [TiltAng b a] /\
+    chain_propagate_tilted sq [P] (pwf_init lam pix foc [TiltAng b a]) dur duc shape pshape os = Ok vA /\
+    wfield vA = Ok oA /\
+    chain_propagate sq [Pramp] (pwf_init lam pix foc []) dur duc shape pshape os = Ok vB /\ wfield vB = Ok oB /\
+    nr oA = Sr * os /\ nc oA = Sc * os /\ nr oB = Sr * os /\ nc oB = Sc * os /\
+    forall i j, 0 <= i < Sr * os -> 0 <= j < Sc * os ->
+      let u := i - (Sr * os) / 2 in let v := j - (Sc * os) / 2 in
+      let X := (sumZ n (fun x => sumZ m (fun y =>
+                  (amp_at (pl_amp P) x y * kofb (pget g x y) * ke (- (opd_at (pl_opd P) x y / lam))%Qc
+                   * ke (ar * zq (x - n / 2) * (zq u - sr) + ac * zq (y - m / 2) * (zq v - sc))%Qc)%K))
+                * sq (qabs (ar * ac)%Qc))%K in
+      get oA i j = (if inE (array_extent (Pr * os) (Pc * os) (qfix sr) (qfix sc)) u v then X else k0) /\
+      get oB i j = (if inE (array_extent (Pr * os) (Pc * os) 0 0) u v then X else k0) /\
+      (inE (array_extent (Pr * os) (Pc * os) (qfix sr) (qfix sc)) u v = true ->
+       inE (array_extent (Pr * os) (Pc * os) 0 0) u v = true -> get oA i j = get oB i j).
+Proof. exact wavefront_tilt_equals_opd_ramp. Qed.
+Print Assumptions Chain_wavefront_tilt_equals_opd_ramp.
+
+(* non-vacuity: the integers with kernel 1 satisfy the hypotheses on the scalars; a 3 x 4 pupil over Z (array amplitude
+   1 + i + 2 j, scalar OPD, a mask that blocks sample (0, 3), pixel scale 1/2, focal length 4) built by the
+   constructor satisfies the hypotheses of Chain_image_of_pupil / Chain_tilt_plane_equals_opd_ramp; the chain runs with
+   shape (2, 3), prop_shape (1, 2), oversample 2: a sample inside the 2 x 4 window carries the sum of the amplitude
+   over the mask (60 - 7 = 53), its intensity is 53^2, a sample outside the window is 0 *)
+Definition exAmp : arr ZS := @mkArr ZS 3 4 (fun i j => 1 + i + 2 * j).
+Definition exMask : arr ZS := @mkArr ZS 3 4 (fun i j => if (i =? 0) && (j =? 3) then 0 else 1).
+Definition exNz : ZS -> bool := fun x => negb (x =? 0).
+Definition exPupil : result (plane ZS) :=
+  plane_init (S := ZS) exNz (AmpA exAmp) (OpdS 0%Qc) (M2 exMask) (Pix1 (Q2Qc (1 # 2))) (Some (FVal (Q2Qc 4))) [].
+Example Chain_nonvacuous :
+  is_ring ZS /\ kernel_laws ZS /\
+  match exPupil with
+  | Ok P =>
+      plane_ok P 3 4 /\ pl_mask P = PM2 (binarise exNz exMask) /\ pl_tilt P = [] /\
+      mul_pixelscale (pl_pix P) (pix_broadcast PixNone) = Ok (Some (Q2Qc (1 # 2), Q2Qc (1 # 2))) /\
+      pl_focal P = Some (FVal (Q2Qc 4)) /\
+      match chain_propagate (S := ZS) (fun _ => 1) [P] (pwf_init (S := ZS) 1%Qc PixNone None [])
+                            (Q2Qc (1 # 4)) (Q2Qc (1 # 4)) (Some (2, 3)) (Some (1, 2)) 2 with
+      | Ok v => match wfield v, wintensity v with
+                | Ok o, Ok oi => get o 2 3 = 53 /\ get oi 2 3 = 53 * 53 /\ get o 1 1 = 53 /\ get o 0 0 = 0 /\ get o 2 5 = 0
+                | _, _ => False end
+      | Err _ => False end
+  | Err _ => False end.
+Proof.
+  split; [exact ZS_ring|]. split; [split; reflexivity|].
+  vm_compute. split.
+  { constructor; try reflexivity.
+    - intros a [<-|[]]. split; reflexivity.
+    - repeat split. }
+  repeat split; reflexivity.
+Qed.
+
+(* the hypotheses of Chain_fft_equals_dft are satisfiable as well: a 2 x 3 integer field, unit pixel scales and focal
+   length, wavelength 5 (so that _fft_shape gives the 5 x 5 grid), shape (2, 2), no scratch buffer; both propagators
+   run and every sample is the sum of the field (kernel 1) *)
+Example Chain_fft_nonvacuous :
+  let wF : Fft.wavefront ZS :=
+    Fft.mkWf [mkField (D2 (mkArr (S := ZS) 2 3 (fun i j => (i + 2 * j + 1 : ZS)))) 0 0 []] (2, 3) (Q2Qc 5) (1%Qc, 1%Qc) 1%Qc PPupil in
+  (forall k : Z, @ke ZS (zq k) = k1) /\
+  fft_grid (1%Qc, 1%Qc) (1%Qc, 1%Qc) 1%Qc (Fft.wlam wF) 1 = (5, 5) /\
+  Fft.has_tilt wF = false /\ Fft.wpt wF <> PNone /\
+  (forall f r c, In f (Fft.wdata wF) ->
+     inr (fst (Fft.wshape wF)) (r + fst (Fft.wshape wF) / 2) && inr (snd (Fft.wshape wF)) (c + snd (Fft.wshape wF) / 2) = false ->
+     embed f r c = k0) /\
+  match propagate_fft (S := ZS) (fun _ => 1) wF (1%Qc, 1%Qc) (Some (2, 2)) 1 None,
+        propagate_dft (S := ZS) (fun _ => 1) (@no_shift ZS)
+          (mkWf (prop_wavelength 5 5 (1%Qc, 1%Qc) (1%Qc, 1%Qc) 1%Qc 1) (Some (1%Qc, 1%Qc)) (Some 1%Qc) (2, 3) PtPupil (Fft.wdata wF))
+          1%Qc 1%Qc (Some (2, 2)) None 1 None with
+  | Ok (outF, _), Ok outD =>
+      match Fft.wfield outF, wfield outD with
+      | Ok oF, Ok oD => get oF 1 1 = 21 /\ get oD 1 1 = 21 /\ get oF 0 1 = get oD 0 1
+      | _, _ => False end
+  | _, _ => False end.
+Proof.
+  cbv zeta. split; [reflexivity|]. split; [vm_compute; reflexivity|]. split; [reflexivity|]. split; [discriminate|]. split.
+  { intros f r c [<-|[]] H. cbn [Fft.wshape fst snd] in H. rewrite embed_D2. unfold embedA. cbn [nr nc get].
+    change (2 / 2) with 1 in *. change (3 / 2) with 1 in *.
+    replace (r - 0 + 1) with (r + 1) by ring. replace (c - 0 + 1) with (c + 1) by ring. rewrite H. reflexivity. }
+  vm_compute. repeat split; reflexivity.
+Qed.
